@@ -337,6 +337,15 @@ def run(repo, chk):
     tp = repo.methods(RULES, 'Teleport').get('process')
     chk.expect(tp is not None and [src(n.value) for n in ast.walk(tp) if isinstance(n, ast.Return)] == ['(start, self.node)'], 'C06.P1',
                'Teleport.process', 'returns to the saved position', RULES)
+    # flavour identity in the typechecker: the builtins that never complete (!is_defeat, all_is_win, all_is_broken) are
+    # recognised by their exact flavoured name, so a user function of another flavour with the same base name is an ordinary
+    # call (shared with the statement-sequence tabulation C16.E2)
+    chk.rule('C06.L2', 'flavour is part of the name in the typechecker too: f, @f and !f with a builtin base name are not the builtin '
+                       '(shared with C16.E2)')
+    if chk.__class__.__name__ == 'Check':
+        from . import c16
+        from ..report import Remap as _Remap
+        c16.run(repo, _Remap(chk, {'C16.E2': lambda c: 'C06.L2' if '@' in c or '!' in c else None}))
     chk.exhaustive = True
     chk.not_decided = ['nothing: the context lattice is finite and fully explored; typing rules are C07']
 
